@@ -36,6 +36,10 @@ def run(ctx):
     for d in rep["disagreements"]:
         if d["sig"].startswith("C13:"):
             ctx.disagreement(d["sig"], d["detail"], d["case"])
+        elif d["sig"].split(":")[0] in ("C01", "C02"):
+            # a registered type that does not serialise / deserialise as its schema line prescribes (patterns min / full /
+            # shared groups of every definition) is not a faithful translation either
+            ctx.disagreement("C13:serialisation:" + ":".join(d["sig"].split(":")[1:]), d["detail"], d["case"])
     key = os.path.join(ctx.wd, "rsa.key")
     C.run_harness(ctx, ["rsakey", key])
     r = C.run_harness(ctx, ["methods", "-cases", methods, "-key", key], timeout=1800)
@@ -50,7 +54,9 @@ def run(ctx):
                 "definitions id = CRC-32(canonical line) (CRC computed in TLA+), exactly one registered type, enum vs struct, field count, "
                 "kinds in order, vector markers, conditional bits, flags-word position; nothing registered outside the schemas; generic "
                 "wrappers present and byte-exact; %d generated client methods called by reflection against the reference server with "
-                "position-naming arguments: request bytes = schema image, returned value = answer of the declared result kind"
+                "position-naming arguments: request bytes = schema image, returned value = answer of the declared result kind and admitting "
+                "every constructor of the result type, vector-returning methods (and every seventh other) refused once with bad_server_salt; "
+                "min / full / shared-group values of every definition serialise to the schema image and back"
                 % (ndefs, mrep["evaluations"]),
         "samples": mrep["samples"] + findings[:2], "exhaustive": True,
         "findings": [f["problem"] + ":" + f["name"] for f in findings],
